@@ -475,8 +475,46 @@ int renameat(int ad, const char *a, int bd, const char *b) {
  * made (and lost) its attempt on the lock port before it lets the holder go. ---- */
 static int (*real_bind)(int, const struct sockaddr *, socklen_t);
 static int is_monorail = -1;
+
+/* ---- port map: FSFAULT_PORTMAP="5917:41001,5918:41002" rewrites the port of every AF_INET bind() and
+ * connect(): a configuration that relies on the documented default ports can then run in many
+ * worlds at once, each world's defaults landing on its own reserved pair ---- */
+static int map_port(const struct sockaddr *addr, socklen_t len, struct sockaddr_in *copy) {
+    const char *pm = getenv("FSFAULT_PORTMAP");
+    if (!pm || !*pm || !addr || addr->sa_family != AF_INET || len < (socklen_t)sizeof(struct sockaddr_in)) return 0;
+    int port = (int)ntohs(((const struct sockaddr_in *)addr)->sin_port);
+    const char *p = pm;
+    while (*p) {
+        int from = atoi(p);
+        const char *c = strchr(p, ':');
+        if (!c) break;
+        int to = atoi(c + 1);
+        if (from == port && to > 0) {
+            memcpy(copy, addr, sizeof(*copy));
+            copy->sin_port = htons((unsigned short)to);
+            return 1;
+        }
+        const char *n = strchr(c, ',');
+        if (!n) break;
+        p = n + 1;
+    }
+    return 0;
+}
+static int (*real_connect)(int, const struct sockaddr *, socklen_t);
+int connect(int fd, const struct sockaddr *addr, socklen_t len) {
+    if (!real_connect) real_connect = dlsym(RTLD_NEXT, "connect");
+    struct sockaddr_in m;
+    if (map_port(addr, len, &m)) return real_connect(fd, (const struct sockaddr *)&m, sizeof(m));
+    return real_connect(fd, addr, len);
+}
+
 int bind(int fd, const struct sockaddr *addr, socklen_t len) {
     if (!real_bind) real_bind = dlsym(RTLD_NEXT, "bind");
+    struct sockaddr_in mapped;
+    if (map_port(addr, len, &mapped)) {
+        addr = (const struct sockaddr *)&mapped;
+        len = sizeof(mapped);
+    }
     int rc = real_bind(fd, addr, len);
     int e = errno;
     const char *lg = getenv("FSFAULT_BINDLOG");
